@@ -65,8 +65,8 @@ fn lint(src: &str) -> Result<Vec<Diag>, String> {
 fn check(src: &str, map: &[(String, String)], what: &str) -> Option<String> {
     let twin = rename(src, map);
     let (a, b) = match (lint(src), lint(&twin)) { (Ok(a), Ok(b)) => (a, b), (Err(e), _) | (_, Err(e)) => return Some(e) };
-    // the description of the original, renamed, is the description expected for the twin
-    let mut want: Vec<Diag> = a.iter().map(|(l, t, el, et, title, desc)| (*l, *t, *el, *et, title.clone(), rename(desc, map))).collect();
+    // title and description of the original, renamed, are the ones expected for the twin (some titles name labels)
+    let mut want: Vec<Diag> = a.iter().map(|(l, t, el, et, title, desc)| (*l, *t, *el, *et, rename(title, map), rename(desc, map))).collect();
     want.sort();
     if want != b {
         let only_a: Vec<&Diag> = want.iter().filter(|d| !b.contains(d)).collect();
@@ -86,7 +86,18 @@ fn class_map(names: &[&str], xnames: &[&str], perm: &[usize]) -> Vec<(String, St
     m
 }
 
-const PROGRAMS: [&str; 17] = [
+const PROGRAMS: [&str; 23] = [
+    // a frame addressed through the frame pointer, at and above the entry sp
+    "main:\n    jal ra, f\n    li a7, 10\n    ecall\nf:\n    addi sp, sp, -16\n    sw s0, 12(sp)\n    sw s1, 8(sp)\n    addi s0, sp, 16\n    sw s1, 0(s0)\n    lw a0, 4(s0)\n    lw s1, -8(s0)\n    lw s0, 12(sp)\n    addi sp, sp, 16\n    ret\n",
+    // uninitialised low registers only, at program entry
+    "main:\n    add a0, t1, t2\n    add a1, a0, s1\n    li a7, 10\n    ecall\n",
+    "main:\nloop:\n    addi t0, t0, 1\n    blt t0, a0, loop\n    add a0, a0, s0\n    li a7, 10\n    ecall\n",
+    // two different labels, each defined twice
+    "main:\n    jal ra, first\n    li a7, 10\n    ecall\nfirst:\n    li a0, 1\n    ret\nfirst:\n    li a0, 2\nsecond:\n    ret\nsecond:\n    ret\n",
+    // linking through a temporary
+    "main:\n    li t1, 5\n    jal t0, double\n    add a0, a0, t1\n    li a7, 10\n    ecall\ndouble:\n    add a0, a0, a0\n    jr t0\n",
+    // loads / stores by label (two-instruction expansions), writes to the zero register
+    "main:\n    jal ra, f\n    li a7, 10\n    ecall\nf:\n    lw s0, v\n    sw a0, v, s1\n    add zero, t0, t0\nhere: addi x0, t0, 1\n    mv a0, s0\n    ret\n.data\nv:  .word 7\n",
     // two clobbered temporaries read by one instruction after a call, in both operand orders
     "main:\n    li t0, 1\n    li t1, 2\n    jal ra, foo\n    add a0, t0, t1\n    add a1, t1, t0\n    sub a2, t5, t6\n    li a7, 10\n    ecall\nfoo:\n    li a0, 0\n    ret\n",
     // a function with two labels, called through each of them
@@ -145,7 +156,10 @@ pub fn search(v: &serde_json::Value) -> i32 {
             }
         }
         // label renamings: every label of the program gets a new valid name (injective)
-        let labels: Vec<String> = src.split('\n').filter_map(|l| l.trim().strip_suffix(':').map(str::to_string)).collect();
+        let mut labels: Vec<String> = Vec::new();
+        for l in src.split('\n').filter_map(|l| l.trim().split(':').next().filter(|_| l.contains(':') && !l.trim_start().starts_with('#') && !l.contains('"')).map(|x| x.trim().to_string())) {
+            if !l.is_empty() && !l.contains(' ') && !labels.contains(&l) { labels.push(l); }   // every label once: the renaming is a function of the name
+        }
         for style in 0..5 {
             let map: Vec<(String, String)> = labels.iter().enumerate().map(|(i, l)| (l.clone(), match style {
                 0 => format!("{l}_renamed"), 1 => format!("L{i}"), 2 => format!("_{}", labels[(i + 1) % labels.len()].to_uppercase()),
